@@ -497,8 +497,20 @@ class _LinkDomain(Domain):
             else:
                 st.env[stmt.targets[0].id] = v
         elif isinstance(stmt, ast.Assign):
+            st0 = st
             st = st.copy()
             for t in stmt.targets:
+                if isinstance(t, (ast.Tuple, ast.List)) and isinstance(
+                        stmt.value, (ast.Tuple, ast.List)) and \
+                        len(t.elts) == len(stmt.value.elts):
+                    for a, b in zip(t.elts, stmt.value.elts):
+                        if isinstance(a, ast.Name):
+                            v = self.ev(b, st0)
+                            if v == HOLE:
+                                st.env.pop(a.id, None)
+                            else:
+                                st.env[a.id] = v
+                    continue
                 for x in ast.walk(t):
                     if isinstance(x, ast.Name) and isinstance(
                             x.ctx, ast.Store):
